@@ -89,6 +89,8 @@ impl LogInnerManager {
         &&& 32 <= self.index_cursor <= 4090 && a.len() >= 4096
         &&& a.subrange(32, self.index_cursor as int) == idx_area(self.indexs@)
         &&& forall|i: int| self.index_cursor <= i < 4096 ==> #[trigger] a[i] == 0u8
+        // the last entry was written while the area still had its 10 spare bytes (so the reader's `offset > len - 10` stop never cuts an entry off)
+        &&& (self.indexs@.len() > 1 ==> 32 + idx_area(self.indexs@.drop_last()).len() <= 4085)
     }
     pub open spec fn wf(&self) -> bool { self.wf_data() && self.wf_points() && self.wf_area() }
 }
@@ -277,6 +279,12 @@ pub proof fn lemma_write_area_push(o: LogInnerManager, n: LogInnerManager)
             else { assert(a1.subrange(o.index_cursor as int, n.index_cursor as int)[i + 32 - o.index_cursor] == a1[i + 32]); }
         }
     }
+    // the new last entry starts at the old cursor, which still had its 10 spare bytes
+    assert(nx.drop_last() == ix);
+    assert(a0.subrange(32, o.index_cursor as int) == idx_area(ix));
+    assert(a0.subrange(32, o.index_cursor as int).len() == o.index_cursor - 32);
+    assert(idx_area(nx.drop_last()).len() == o.index_cursor - 32);
+    assert(nx.len() > 1);
 }
 
 /// C02: one acknowledged append keeps the whole data-structure invariant
@@ -556,6 +564,20 @@ pub proof fn lemma_strip_area(o: LogInnerManager, n: LogInnerManager, p: int, k:
             assert(idx_area(ix).take(l)[i] == idx_area(ix)[i]);
         }
     }
+    // the start of the new last entry is not behind the start of the old last entry
+    if nx.len() > 1 {
+        let interval = o.header.index_interval as int;
+        if p + 1 == ix.len() {
+            assert(nx =~= ix);
+        } else {
+            let pre = ix.drop_last();
+            lemma_idx_wf_take(ix, interval, ix.len() - 2);
+            assert(ix.take(ix.len() - 1) =~= pre);
+            assert(pre.take(p) =~= nx.drop_last());
+            lemma_idx_area_split(pre, p - 1);
+            lemma_idx_bytes_bound(pre, p - 1);
+        }
+    }
 }
 
 /// C03: truncation keeps the whole data-structure invariant: the first k records and nothing else remain
@@ -672,6 +694,267 @@ pub proof fn lemma_idx_build_len(first: InnerIdxDto, interval: int, d: Seq<nat>)
     decreases d.len()
 {
     if d.len() > 0 { lemma_idx_build_len(first, interval, d.drop_last()); }
+}
+
+
+// ------------------------------------------------------------------ C02: reopening a well-formed image rebuilds the same state
+/// file-offset deltas of entries 1..len-1
+pub open spec fn deltas(ix: Idx) -> Seq<nat>
+    decreases ix.len()
+{
+    if ix.len() <= 1 { seq![] } else { deltas(ix.drop_last()).push((ix.last().file_index - ix[ix.len() - 2].file_index) as nat) }
+}
+
+/// a zero byte decodes as the value 0 (the end of the index area)
+pub proof fn lemma_read_at_zero(a: Seq<u8>, c: int)
+    requires 0 <= c < a.len(), a[c] == 0u8
+    ensures read_at(a, c) == 0
+{
+    let s = a.skip(c);
+    assert(s[0] == 0u8);
+    assert(0u8 & 0x80 == 0) by(bit_vector);
+    assert(vval(s) == 0);
+}
+
+/// decoding a buffer that starts with the encoded entries of ix consumes exactly their deltas and goes on behind them
+pub proof fn lemma_dec_prefix(ix: Idx, interval: int, a: Seq<u8>, le: int)
+    requires idx_wf(ix, interval), idx_area(ix).len() <= le, le < a.len(), a.take(idx_area(ix).len() as int) == idx_area(ix)
+    ensures dec_from(a, 0, read_at(a, 0), le) == deltas(ix) + dec_from(a, idx_area(ix).len() as int, read_at(a, idx_area(ix).len() as int), le)
+    decreases ix.len()
+{
+    let c = idx_area(ix).len() as int;
+    if ix.len() <= 1 {
+        assert(deltas(ix) + dec_from(a, 0, read_at(a, 0), le) =~= dec_from(a, 0, read_at(a, 0), le));
+    } else {
+        let q = ix.len() - 1;
+        let pre = ix.drop_last();
+        let d = (ix[q].file_index - ix[q - 1].file_index) as nat;
+        let cp = idx_area(pre).len() as int;
+        assert(idx_adj(ix, interval, q));
+        lemma_enc_len_table(d);
+        lemma_idx_wf_take(ix, interval, q - 1);
+        assert(ix.take(q) =~= pre);
+        assert(idx_area(ix) == idx_area(pre).add(enc(d)));
+        assert(c == cp + enc_len(d));
+        assert(a.take(cp) =~= idx_area(pre)) by { assert(a.take(cp) =~= a.take(c).take(cp)); assert(idx_area(ix).take(cp) =~= idx_area(pre)); }
+        lemma_dec_prefix(pre, interval, a, le);
+        // at cp the buffer holds enc(d) followed by the rest
+        assert(a.skip(cp) =~= enc(d).add(a.skip(c))) by {
+            assert forall|i: int| 0 <= i < a.len() - cp implies a.skip(cp)[i] == enc(d).add(a.skip(c))[i] by {
+                if i < enc_len(d) { assert(a.take(c)[cp + i] == idx_area(ix)[cp + i]); assert(idx_area(ix)[cp + i] == enc(d)[i]); }
+            }
+        }
+        lemma_dec_enc(d, a.skip(c));
+        assert(read_at(a, cp) == d);
+        assert(dec_from(a, cp, d, le) == seq![d].add(dec_from(a, c, read_at(a, c), le)));
+        assert(deltas(ix) =~= deltas(pre).push(d));
+        assert(deltas(pre) + (seq![d].add(dec_from(a, c, read_at(a, c), le))) =~= deltas(ix) + dec_from(a, c, read_at(a, c), le));
+    }
+}
+
+pub proof fn lemma_deltas_props(ix: Idx, interval: int)
+    requires idx_wf(ix, interval), ix[0].log_index + interval * (ix.len() - 1) <= u64::MAX
+    ensures deltas(ix).len() == ix.len() - 1, deltas_bytes(deltas(ix)) == idx_area(ix).len(), idx_build(ix[0], interval, deltas(ix)) == ix
+    decreases ix.len()
+{
+    if ix.len() <= 1 {
+        assert(idx_build(ix[0], interval, deltas(ix)) =~= ix);
+    } else {
+        let q = ix.len() - 1;
+        let pre = ix.drop_last();
+        let d = (ix[q].file_index - ix[q - 1].file_index) as nat;
+        assert(idx_adj(ix, interval, q));
+        lemma_enc_len_table(d);
+        lemma_idx_wf_take(ix, interval, q - 1);
+        assert(ix.take(q) =~= pre);
+        assert(interval * (pre.len() - 1) <= interval * (ix.len() - 1)) by(nonlinear_arith) requires interval > 0, pre.len() <= ix.len();
+        lemma_deltas_props(pre, interval);
+        assert(deltas(ix).drop_last() =~= deltas(pre));
+        lemma_idx_mono_first(ix, interval, q);
+        assert(idx_build(ix[0], interval, deltas(ix)) =~= ix);
+    }
+}
+
+pub proof fn lemma_idx_mono_first(ix: Idx, interval: int, j: int)
+    requires idx_wf(ix, interval), 0 <= j < ix.len()
+    ensures ix[j].log_index == ix[0].log_index + interval * j
+    decreases j
+{
+    if j > 0 {
+        assert(idx_adj(ix, interval, j));
+        lemma_idx_mono_first(ix, interval, j - 1);
+        assert(interval * j == interval * (j - 1) + interval) by(nonlinear_arith);
+    } else {
+        assert(interval * 0 == 0) by(nonlinear_arith);
+    }
+}
+
+/// C02: the index area of a well-formed file decodes to exactly the in-memory index (what read_indexs computes on reopen)
+pub proof fn lemma_reopen_index(ix: Idx, interval: int, a: Seq<u8>)
+    requires idx_wf(ix, interval), a.len() == 4064, idx_area(ix).len() <= 4058,
+        a.take(idx_area(ix).len() as int) == idx_area(ix),
+        forall|i: int| idx_area(ix).len() <= i < 4064 ==> #[trigger] a[i] == 0u8,
+        ix.len() > 1 ==> idx_area(ix.drop_last()).len() <= 4054,
+        ix[0].log_index + interval * (ix.len() - 1) <= u64::MAX,
+    ensures ({
+        let d = dec_from(a, 0, read_at(a, 0), 4054);
+        d == deltas(ix) && idx_build(ix[0], interval, d) == ix && deltas_bytes(d) == idx_area(ix).len()
+    })
+{
+    let c = idx_area(ix).len() as int;
+    lemma_deltas_props(ix, interval);
+    if c <= 4054 {
+        lemma_dec_prefix(ix, interval, a, 4054);
+        lemma_read_at_zero(a, c);
+        assert(deltas(ix) + dec_from(a, c, 0, 4054) =~= deltas(ix));
+    } else {
+        let q = ix.len() - 1;
+        let pre = ix.drop_last();
+        let d = (ix[q].file_index - ix[q - 1].file_index) as nat;
+        let cp = idx_area(pre).len() as int;
+        assert(idx_adj(ix, interval, q));
+        lemma_enc_len_table(d);
+        lemma_idx_wf_take(ix, interval, q - 1);
+        assert(ix.take(q) =~= pre);
+        assert(a.take(cp) =~= idx_area(pre)) by { assert(a.take(cp) =~= a.take(c).take(cp)); assert(idx_area(ix).take(cp) =~= idx_area(pre)); }
+        lemma_dec_prefix(pre, interval, a, 4054);
+        assert(a.skip(cp) =~= enc(d).add(a.skip(c))) by {
+            assert forall|i: int| 0 <= i < a.len() - cp implies a.skip(cp)[i] == enc(d).add(a.skip(c))[i] by {
+                if i < enc_len(d) { assert(a.take(c)[cp + i] == idx_area(ix)[cp + i]); assert(idx_area(ix)[cp + i] == enc(d)[i]); }
+            }
+        }
+        lemma_dec_enc(d, a.skip(c));
+        assert(read_at(a, cp) == d);
+        assert(dec_from(a, cp, d, 4054) == seq![d]);
+        assert(deltas(ix) =~= deltas(pre).push(d));
+        assert(deltas(pre) + seq![d] =~= deltas(ix));
+    }
+}
+
+
+/// a varint read from the middle of an encoded value yields at most that value
+pub proof fn lemma_enc_suffix(v: nat, j: int, rest: Seq<u8>)
+    requires 0 <= j < enc(v).len()
+    ensures vlen(enc(v).skip(j).add(rest)) is Some, vval(enc(v).skip(j).add(rest)) <= v
+    decreases j
+{
+    if j == 0 {
+        assert(enc(v).skip(0) =~= enc(v));
+        lemma_dec_enc(v, rest);
+    } else {
+        lemma_enc_len(v);
+        assert(v >= 128);
+        assert(enc(v).skip(j) =~= enc(v / 128).skip(j - 1));
+        lemma_enc_suffix(v / 128, j - 1, rest);
+    }
+}
+
+/// every offset of an index area written by the store reads as a value below 2^32 (precondition of read_indexs)
+pub proof fn lemma_area_val_ok(ix: Idx, interval: int, a: Seq<u8>, off: int)
+    requires idx_wf(ix, interval), idx_area(ix).len() <= a.len(), a.take(idx_area(ix).len() as int) == idx_area(ix), 0 <= off < idx_area(ix).len()
+    ensures idx_val_ok(a, off)
+    decreases ix.len()
+{
+    let c = idx_area(ix).len() as int;
+    if ix.len() > 1 {
+        let q = ix.len() - 1;
+        let pre = ix.drop_last();
+        let d = (ix[q].file_index - ix[q - 1].file_index) as nat;
+        let cp = idx_area(pre).len() as int;
+        assert(idx_adj(ix, interval, q));
+        lemma_enc_len_table(d);
+        lemma_idx_wf_take(ix, interval, q - 1);
+        assert(ix.take(q) =~= pre);
+        assert(idx_area(ix) == idx_area(pre).add(enc(d)));
+        if off < cp {
+            assert(a.take(cp) =~= idx_area(pre)) by { assert(a.take(cp) =~= a.take(c).take(cp)); assert(idx_area(ix).take(cp) =~= idx_area(pre)); }
+            lemma_area_val_ok(pre, interval, a, off);
+        } else {
+            let j = off - cp;
+            assert(a.skip(off) =~= enc(d).skip(j).add(a.skip(c))) by {
+                assert forall|i: int| 0 <= i < a.len() - off implies a.skip(off)[i] == enc(d).skip(j).add(a.skip(c))[i] by {
+                    if i < enc_len(d) - j { assert(a.take(c)[off + i] == idx_area(ix)[off + i]); assert(idx_area(ix)[off + i] == enc(d)[j + i]); }
+                }
+            }
+            lemma_enc_suffix(d, j, a.skip(c));
+        }
+    }
+}
+
+impl LogInnerManager {
+    /// what is on disk: the index handle wrote the first 4 KiB, the data handle everything behind (A-SAMEFILE)
+    pub open spec fn disk_image(&self) -> Seq<u8> { self.index_file.contents().take(4096) + self.data_file.contents().skip(4096) }
+}
+
+/// C02: for every well-formed state, decoding its disk image the way `init` does (read_indexs on bytes 32..4096, then the scan from
+/// the last index entry to the first zero length) yields exactly the index, the cursors and the record count of that state
+pub proof fn lemma_reopen(m: LogInnerManager)
+    requires m.wf()
+    ensures ({
+        let img = m.disk_image();
+        let a = img.subrange(32, 4096);
+        let first = InnerIdxDto { log_index: m.start_index, file_index: 4096 };
+        let d = dec_from(a, 0, read_at(a, 0), 4054);
+        let ix = idx_build(first, m.header.index_interval as int, d);
+        let tail = img.skip(ix.last().file_index as int);
+        let sc = scan(tail, 0xffff);
+        &&& img.len() == m.file_len
+        &&& forall|off: int| 0 <= off < a.len() ==> #[trigger] idx_val_ok(a, off)
+        &&& ix == m.indexs@ && 32 + deltas_bytes(d) == m.index_cursor
+        &&& ok_stream(tail) && terminated(tail)
+        &&& ix.last().file_index + sc.0 == m.data_cursor
+        &&& ix.last().log_index - m.start_index + sc.1 == m.msg_count
+    })
+{
+    let img = m.disk_image();
+    let ic = m.index_file.contents();
+    let dc = m.data_file.contents();
+    let a = img.subrange(32, 4096);
+    let ix0 = m.indexs@;
+    let interval = m.header.index_interval as int;
+    let c = idx_area(ix0).len() as int;
+    assert(img.len() == m.file_len);
+    assert(a =~= ic.subrange(32, 4096));
+    assert(c == m.index_cursor - 32) by { assert(ic.subrange(32, m.index_cursor as int).len() == m.index_cursor - 32); }
+    assert(a.take(c) =~= idx_area(ix0)) by { assert(a.take(c) =~= ic.subrange(32, m.index_cursor as int)); }
+    assert forall|i: int| c <= i < 4064 implies #[trigger] a[i] == 0u8 by { assert(a[i] == ic[i + 32]); }
+    let first = InnerIdxDto { log_index: m.start_index, file_index: 4096 };
+    assert(ix0[0] == first);
+    lemma_idx_mono_first(ix0, interval, ix0.len() - 1);
+    assert(interval * (ix0.len() - 1) >= 0) by(nonlinear_arith) requires interval > 0, ix0.len() >= 1;
+    lemma_reopen_index(ix0, interval, a);
+    assert forall|off: int| 0 <= off < a.len() implies #[trigger] idx_val_ok(a, off) by {
+        if off < c { lemma_area_val_ok(ix0, interval, a, off); }
+        else {
+            let s = a.skip(off);
+            assert(s[0] == 0u8);
+            assert(0u8 & 0x80 == 0) by(bit_vector);
+            assert(vval(s) == 0);
+        }
+    }
+    // the record stream behind the last index entry: the remaining records, then zeros
+    let last = ix0.last();
+    let kl = (last.log_index - m.start_index) as nat;
+    let s0 = m.recs();
+    let k0 = m.msg_count as nat;
+    let fi = last.file_index as int;
+    let suffix = img.skip(fi);
+    assert(img.skip(4096) =~= s0);
+    assert(fi >= 4096) by { if ix0.len() > 1 { lemma_idx_mono(ix0, interval, 0, ix0.len() - 1); } }
+    lemma_scan_mono(s0, kl, k0);
+    lemma_scan_bounds(s0, kl);
+    assert(fi - 4096 == scan(s0, kl).0);
+    assert(suffix =~= s0.skip(scan(s0, kl).0));
+    let rest = (k0 - kl) as nat;
+    assert(kl + rest == k0);
+    lemma_ok_prefixes_suffix(s0, kl, rest);
+    lemma_scan_split(s0, kl, rest);
+    assert forall|i: int| scan(suffix, rest).0 <= i < suffix.len() implies suffix[i] == 0u8 by {
+        assert(dc[i + fi] == 0u8);
+    }
+    lemma_records_then_zeros(suffix, rest);
+    assert(rest <= 0xffff);
+    assert(scan(suffix, 0xffff) == scan(suffix, rest));
 }
 
 } // verus!
